@@ -2,7 +2,10 @@
 package c04
 
 import (
+	"context"
 	"fmt"
+	"runtime"
+	"time"
 	"net/http"
 	"net/http/httptest"
 	"strings"
@@ -54,15 +57,17 @@ func TestC04_Schedules(t *testing.T) {
 		cl := newLimiter(t, gate, int64(limit))
 		model := map[string]int{}
 		type fl struct {
-			c   *sim.Call
-			src string
+			c      *sim.Call
+			src    string
+			cancel func()
 		}
 		var inflight []fl
 		var log []string
-		rejections, panics := 0, 0
+		rejections, panics, mutations, cancels := 0, 0, 0, 0
 		used := map[string]bool{}
 		start := func(src string, mustAdmit, mustReject bool) {
-			req := httptest.NewRequest("GET", "http://x/", nil)
+			ctx, cancel := context.WithCancel(context.Background())
+			req := httptest.NewRequest("GET", "http://x/", nil).WithContext(ctx)
 			req.Header.Set("X-Src", src)
 			c, err := gate.Start(cl, req)
 			if err != nil {
@@ -76,9 +81,10 @@ func TestC04_Schedules(t *testing.T) {
 					t.Fatalf("limit %d: source %s already has %d requests in flight but another one was admitted\nschedule: %s", limit, src, model[src], strings.Join(log, " "))
 				}
 				model[src]++
-				inflight = append(inflight, fl{c, src})
+				inflight = append(inflight, fl{c, src, cancel})
 				return
 			}
+			cancel()
 			log = append(log, fmt.Sprintf("start(%s)=%d", src, c.Rec.Status()))
 			rejections++
 			if wantAdmit || mustAdmit {
@@ -97,9 +103,20 @@ func TestC04_Schedules(t *testing.T) {
 			mu.Lock()
 			inside[f.src]--
 			mu.Unlock()
-			if err := f.c.Finish(sim.Outcome{Status: 200, Panic: panic}); err != nil {
+			o := sim.Outcome{Status: 200, Panic: panic}
+			switch rapid.IntRange(0, 5).Draw(t, "scrub") {
+			case 0: // the handler scrubs the identifying header before returning
+				o.Mutate = func(r *http.Request) { r.Header.Del("X-Src") }
+				mutations++
+			case 1: // ... or rewrites it to another source's value
+				other := rapid.SampledFrom(srcs).Draw(t, "rewriteTo")
+				o.Mutate = func(r *http.Request) { r.Header.Set("X-Src", other) }
+				mutations++
+			}
+			if err := f.c.Finish(o); err != nil {
 				t.Fatalf("%v", err)
 			}
+			f.cancel()
 			if panic {
 				panics++
 				if f.c.Panicked == nil {
@@ -111,7 +128,17 @@ func TestC04_Schedules(t *testing.T) {
 		}
 		n := rapid.IntRange(1, 40).Draw(t, "nops")
 		for i := 0; i < n; i++ {
-			if rapid.IntRange(0, 2).Draw(t, "op") > 0 || len(inflight) == 0 {
+			op := rapid.IntRange(0, 6).Draw(t, "op")
+			if op == 6 && len(inflight) > 0 {
+				// the client of an in-flight request goes away: its context is cancelled, but the
+				// handler keeps running, so the request still occupies its slot
+				f := inflight[rapid.IntRange(0, len(inflight)-1).Draw(t, "cancelWhich")]
+				f.cancel()
+				cancels++
+				log = append(log, "cancel-context("+f.src+")")
+				runtime.Gosched()
+				time.Sleep(200 * time.Microsecond) // give a context.AfterFunc-style hook the chance to run
+			} else if op%3 > 0 || len(inflight) == 0 {
 				start(rapid.SampledFrom(srcs).Draw(t, "src"), false, false)
 			} else {
 				finish(rapid.IntRange(0, len(inflight)-1).Draw(t, "which"), rapid.IntRange(0, 3).Draw(t, "panic") == 0)
@@ -138,6 +165,12 @@ func TestC04_Schedules(t *testing.T) {
 		var cl2 []string
 		if panics > 0 {
 			cl2 = append(cl2, "handler-panic")
+		}
+		if mutations > 0 {
+			cl2 = append(cl2, "handler-rewrites-source-header")
+		}
+		if cancels > 0 {
+			cl2 = append(cl2, "context-cancelled-while-in-flight")
 		}
 		if limit == 0 {
 			cl2 = append(cl2, "limit-0")
